@@ -55,7 +55,7 @@ def domain_obligations(m, prefix, paths, spec):
             m.violated_structurally('%s:domain:%s' % (prefix, cls), prefix + ':domain', 'undocumented outcome %s' % cls)
             continue
         m.submit('%s:domain:%s:%s' % (prefix, cls, KNAME[p['kind']] if p['kind'] is not None else 'any'), p['pc'] + nonneg + LEVEL_OK, spec[cls], sem=INT,
-                 key='%s:domain:%s' % (prefix, cls), note='outcome %s exactly on its documented domain' % cls)
+                 key='%s:domain:%s' % (prefix, cls), note='outcome %s exactly on its documented domain' % cls, vacuity=False)
 
 
 def wilson(ctx, m):
